@@ -7,7 +7,7 @@ import time
 from . import sut, wire
 
 BEHAVIOURS = ["always", "never", "stop2", "late-within", "late-beyond", "wrong-token", "unsolicited",
-              "chatty-silent", "late-long", "never", "always", "slow-register", "slow-register-silent"]
+              "chatty-silent", "late-long", "never", "always", "slow-register", "slow-register-silent", "cap-renegotiate"]
 
 
 class Lag(threading.Thread):
@@ -46,6 +46,7 @@ class Peer:
         else:
             self.c.register(nick, "ck")
         self.t_reg = time.monotonic()
+        self.renegotiate_at = self.t_reg + 0.4
         self.events = []  # (t, kind, detail)
         self.server_pings = []
         self.answered = 0
@@ -76,7 +77,7 @@ class Peer:
             tok = m.params[-1] if m.params else ""
             b = self.b
             answer = None
-            if b in ("always", "unsolicited", "slow-register"):
+            if b in ("always", "unsolicited", "slow-register", "cap-renegotiate"):
                 answer = (now, tok)
             elif b == "wrong-token":
                 answer = (now, "not-the-token")
@@ -113,6 +114,12 @@ class Peer:
                 self.user_due = None
                 self.c.send("USER ck 0 * :slow one")
             return
+        if self.b == "cap-renegotiate" and self.renegotiate_at is not None and now >= self.renegotiate_at:
+            # capability negotiation in mid-session: "any other traffic on the connection in the meantime"
+            self.renegotiate_at = now + 1.3 if self.n < 6 else None
+            self.c.send("CAP LS 302")
+            self.c.send("CAP REQ :multi-prefix")
+            self.c.send("CAP END")
         due = [a for a in self.pending_answers if a[0] <= now]
         for a in due:
             self.pending_answers.remove(a)
@@ -169,7 +176,8 @@ def run_config(args):
                            first_unanswered=None if p.first_unanswered is None else round(p.first_unanswered - p.t_reg, 2))
                 out["peers"].append(rec)
                 tag = "P%d-Q%d" % (P, Q)
-                responsive = p.b in ("always", "late-within", "late-long", "wrong-token", "unsolicited", "slow-register")
+                responsive = p.b in ("always", "late-within", "late-long", "wrong-token", "unsolicited", "slow-register",
+                                     "cap-renegotiate")
                 if not p.registered:
                     # the statement is about registered clients only: nothing to judge
                     out["inconclusive"] = "slow registrant %s never got its welcome (closed: %s, %s)" % (
